@@ -105,5 +105,22 @@ fn vp_native_decoding_and_damage() {
             }
         }
     }
+    // the coding list spread over several field lines (same list, RFC 9110 5.3), the coding not on the first one
+    let p2: Vec<u8> = (0..5000u32).map(|i| (i * 13 % 256) as u8).collect();
+    for (hdr, enc) in [("Content-Encoding: identity\r\nContent-Encoding: gzip\r\n", gz(&p2, 6)), ("Content-Encoding: identity\r\nX-Between: 1\r\ncontent-encoding: x-foo, GZip\r\n", gz(&p2, 6)),
+                       ("Content-Encoding: identity\r\nContent-Encoding: DeFlate\r\n", deflate(&p2, 6)), ("Content-Encoding: a\r\nContent-Encoding: b\r\nContent-Encoding: deflate\r\n", deflate(&p2, 6)),
+                       ("Content-Encoding: identity\r\nContent-Encoding: x-other\r\n", p2.clone())] {
+        for chunked in [false, true] { for size in [7usize, 100000] {
+            let (got, clean) = read_all(respond(hdr, &enc, chunked), size); cases += 1;
+            assert!(clean && got == p2, "coding declared over several field lines {:?}, chunked {}: clean {} got {} of {} bytes", hdr, chunked, clean, got.len(), p2.len());
+        } }
+    }
+    for (te, enc) in [("Transfer-Encoding: gzip\r\nTransfer-Encoding: chunked\r\n\r\n", gz(&p2, 6)), ("Transfer-Encoding: identity\r\nTransfer-Encoding: deflate, chunked\r\n\r\n", deflate(&p2, 6))] {
+        let mut w = b"HTTP/1.1 200 OK\r\n".to_vec(); w.extend_from_slice(te.as_bytes());
+        for c in enc.chunks(777) { w.extend_from_slice(format!("{:x}\r\n", c.len()).as_bytes()); w.extend_from_slice(c); w.extend_from_slice(b"\r\n"); }
+        w.extend_from_slice(b"0\r\n\r\n");
+        let (got, clean) = read_all(w, 4096); cases += 1;
+        assert!(clean && got == p2, "transfer coding declared over two field lines {:?}: clean {} got {} bytes", te, clean, got.len());
+    }
     println!("VP-NATIVE decoding_and_damage cases={}", cases);
 }
